@@ -5,11 +5,13 @@
      base HEXFILE                  set the current file
      walk FUEL                     database_open + walk of the current file -> event lines, END
      mut FUEL OFF HEXBYTES         the same on the current file with HEXBYTES patched in at OFF
+     mutn FUEL OFF:HEX,OFF:HEX     the same with several patches ; mcheckn OFF:HEX,... for check_file
      trunc FUEL LEN                the same on the first LEN bytes
      file FUEL HEXFILE             the same on a complete file given inline
      check | mcheck OFF HEX | tcheck LEN     cgio_check_file (ADF branch)   -> c N
      layout                        structures located by the model's decoders in the current file
      fields                        the field tables of file header and node header
+     witness NAME                  the witness files of AdfWalk.v (valid oobw oobr cycle linkrec biglink abort tagscan stale)
      enc dp B O | enc hex N V | enc snt EB EO name:b:o;... | enc dct EB EO sb:so:eb:eo;... | enc data EB EO HEX
                                    encoders, with the open attributes of the current file      -> e HEXBYTES *)
 open Model
@@ -60,6 +62,9 @@ let patch (bs:z list) (off:int) (p:z list) : z list =
   let a = Array.of_list bs in
   List.iteri (fun i b -> if off + i < Array.length a then a.(off + i) <- b) p;
   Array.to_list a
+let patchn (bs:z list) (ps:string) : z list =
+  List.fold_left (fun acc p -> match String.split_on_char ':' p with
+      | [off; h] -> patch acc (int_of_string off) (bytes_of_hex h) | _ -> failwith "patchn") bs (String.split_on_char ',' ps)
 let rec take k l = if k <= 0 then [] else match l with [] -> [] | x :: r -> x :: take (k - 1) r
 
 let abspos (p:ptr) = let (b, o) = p in int_of_z b * 4096 + int_of_z o
@@ -125,6 +130,8 @@ let run () =
     | ["base"; s] -> base := bytes_of_hex s
     | ["walk"; fu] -> do_walk (int_of_string fu) !base
     | ["mut"; fu; off; s] -> do_walk (int_of_string fu) (patch !base (int_of_string off) (bytes_of_hex s))
+    | ["mutn"; fu; ps] -> do_walk (int_of_string fu) (patchn !base ps)
+    | ["mcheckn"; ps] -> Printf.printf "c %d\n" (int_of_z (check_file (patchn !base ps)))
     | ["trunc"; fu; len] -> do_walk (int_of_string fu) (take (int_of_string len) !base)
     | ["file"; fu; s] -> do_walk (int_of_string fu) (bytes_of_hex s)
     | ["check"] -> Printf.printf "c %d\n" (int_of_z (check_file !base))
@@ -135,6 +142,11 @@ let run () =
       List.iter (fun ((i, o), l) -> Printf.printf "F fileheader %d %d %d\n" (int_of_z i) (int_of_z o) (int_of_z l)) file_header_fields;
       List.iter (fun ((i, o), l) -> Printf.printf "F node %d %d %d\n" (int_of_z i) (int_of_z o) (int_of_z l)) node_header_fields;
       print_string "END\n"
+    | ["witness"; nm] ->
+      let w = (match nm with "valid" -> wit_valid | "oobw" -> wit_oobw | "oobr" -> wit_oobr | "cycle" -> wit_cycle
+                           | "linkrec" -> wit_linkrec | "biglink" -> wit_biglink | "abort" -> wit_abort
+                           | "tagscan" -> wit_tagscan | "stale" -> wit_stale | _ -> []) in
+      Printf.printf "w %s\n" (hb w)
     | ["attr"] -> let a = attr () in Printf.printf "a old=%d fmt=%d os=%d\n" (if a.fa_old then 1 else 0) (int_of_z a.fa_fmt) (int_of_z a.fa_os)
     | ["enc"; "dp"; b; o] -> Printf.printf "e %s\n" (hb (dp_enc (attr ()) (z_of_hexstr b, z_of_hexstr o)))
     | ["enc"; "hex"; n; v] -> Printf.printf "e %s\n" (hb (hexenc (nat_of_int (int_of_string n)) (z_of_hexstr v)))
